@@ -110,6 +110,11 @@ def regenerate(ctx):
     out += ("/-- non-ASCII scalars whose str.upper() contains an ASCII character, with that upper() -/\n"
             f"def upperSpecial : List (Nat × List Nat) := {lean_list((f'({o}, {lean_list(str(x) for x in u)})' for o, u in upper), 4)}\n")
     out += f"/-- True iff recover.FLOAT_PATTERN_* still has the `(:?` typo (optional colon inside the groups) -/\ndef floatPatternColon : Bool := {'true' if '(:?' in R.FLOAT_PATTERN_S.pattern else 'false'}\n"
+    # behaviour of the four formerly defective sites, observed on the CURRENT source (T-tab probe of the real functions):
+    # the theorems about the current code are stated for this configuration, so reverting a fix re-opens front_total
+    cfg = probe_cfg()
+    for i, name in enumerate(["treeFixSection", "treeFixErrMsg", "treeFixDetect", "treeFixUnicode"]):
+        out += f"/-- probed: is defect C07-{i + 1} fixed in the tree under test? -/\ndef {name} : Bool := {'true' if cfg[i] == '1' else 'false'}\n"
     out += "\nend EzdxfVerif.Gen.RecoverTables\n"
     ctx.write_gen("RecoverTables", out, srcs)
 
@@ -140,12 +145,13 @@ ASSUMPTIONS = [
     "C int is 32 bit (chr() OverflowError boundary)",
 ]
 OPEN = [
-    "front_total holds for the patched configuration Cfg.fixed (C07-1..4); for the unchanged tree the four counterexample theorems hold instead",
-    "no theorem covers Drawing._load_section_dict / Auditor / export (oracle only: many further crash sites are listed in known.d/C07.json)",
+    "front_total is stated for Cfg.tree, the configuration regenerate() probes from the current source (all four fixes present); "
+    "the five unfixed_counterexample theorems document the pre-fix behaviour (Cfg.unfixed)",
+    "no theorem covers Drawing._load_section_dict / Auditor / export (oracle only: the save/reload findings in known.d/C07.json)",
 ]
 
 VERSIONS = ["R12", "R2000", "R2004", "R2007", "R2010", "R2013", "R2018"]
-WATCHDOG_S = 30.0
+WATCHDOG_S = 20.0
 
 
 # ------------------------------------------------------------------ corpus (public API only)
@@ -322,11 +328,11 @@ def _alarm(signum, frame):
 
 
 def where(e: BaseException) -> str:
-    """module.function/source line of the innermost ezdxf frame"""
-    tb = traceback.extract_tb(e.__traceback__)
+    """module.function of the innermost ezdxf frame (no line numbers, no source text: stable under unrelated edits)"""
+    tb = traceback.extract_tb(e.__traceback__, )
     for fr in reversed(tb):
         if "ezdxf" in fr.filename:
-            return f"{os.path.basename(fr.filename)[:-3]}.{fr.name}/{' '.join((fr.line or '').split())[:70]}"
+            return f"{os.path.basename(fr.filename)[:-3]}.{fr.name}"
     return "?"
 
 
@@ -339,8 +345,12 @@ def evaluate(data: bytes, expect_msp=None, timeout=WATCHDOG_S):
     from ezdxf.lldxf.const import DXFStructureError
 
     logging.disable(logging.CRITICAL)
+    # a hang of pure Python code burns CPU: the watchdog counts CPU time of this process (a stalled machine is not a
+    # hang of ezdxf), with a 10x wall-clock backstop
+    signal.signal(signal.SIGPROF, _alarm)
     signal.signal(signal.SIGALRM, _alarm)
-    signal.setitimer(signal.ITIMER_REAL, timeout)
+    signal.setitimer(signal.ITIMER_PROF, timeout)
+    signal.setitimer(signal.ITIMER_REAL, 10 * timeout)
     stage = "crash"
     try:
         try:
@@ -355,13 +365,14 @@ def evaluate(data: bytes, expect_msp=None, timeout=WATCHDOG_S):
         if expect_msp is not None:
             got = msp_types(doc)
             if got != expect_msp:
-                return "msp-lost/truncation-behind-ENTITIES", f"expected {expect_msp} got {got}"
+                return "msp-lost/modelspace/entities", f"expected {expect_msp} got {got}"
         return "ok", ""
     except Watchdog:
-        return f"hang/{stage}", f"no result after {timeout}s"
+        return f"hang/{stage}/watchdog", f"no result after {timeout}s CPU time"
     except Exception as e:  # noqa
         return f"{stage}/{type(e).__name__}/{where(e)}", f"{type(e).__name__}: {e}"[:300]
     finally:
+        signal.setitimer(signal.ITIMER_PROF, 0)
         signal.setitimer(signal.ITIMER_REAL, 0)
 
 
@@ -435,7 +446,8 @@ def oracle(ctx):
             ctx.hist(stream, f"{faults[0][0]}" if len(faults) == 1 else "double")
             ctx.hist(stream, "verdict:" + v.split("/")[0])
             if v not in ("ok", "dxfstructure"):
-                ctx.fail(v, f"{fid} + {list(faults)}: {d}", {"file": fid, "faults": [list(f) for f in faults]})
+                kind = faults[0][0] if len(faults) == 1 else "double"
+                ctx.fail(f"{v}/{kind}", f"{fid} + {list(faults)}: {d}", {"file": fid, "faults": [list(f) for f in faults]})
 
 
 def replay(ctx, rep):
@@ -527,7 +539,7 @@ def impl_front(data: bytes, mode: str, ctx=None) -> str:
         name = _ename(e)
         if ctx is not None and name != "DXFStructureError":
             # the real front end itself violates the property on this input: a failing input, not only a disagreement
-            ctx.fail(f"crash/{type(e).__name__}/{where(e)}", f"Recover.run(BytesIO({data[:200]!r}...)) raised {name}: {e}"[:400],
+            ctx.fail(f"crash/{type(e).__name__}/{where(e)}/synthetic", f"Recover.run(BytesIO({data[:200]!r}...)) raised {name}: {e}"[:400],
                      {"bytes": data.hex()})
         return "err " + name
     text = ";".join(
